@@ -23,8 +23,13 @@ class S(System):
 
 
 class C(Collector):
+    """a collector that reports how many records it holds: container-like, and FALSY as long as it holds none"""
+
     def collect(self):
         self.model.log.append(self.id)
+
+    def __len__(self):
+        return len(self.records)
 
 
 def _same_registry(d, exp_items):
